@@ -2407,3 +2407,367 @@ def q_pm_fingerprint_gate(bodies):
 QUERIES["C12"] = QUERIES["C12"] + [q_pm_item_loop]
 QUERIES["C01"] = [q_pm_fingerprint_gate, q_pm_item_loop]
 QUERIES["C03"] = QUERIES["C03"] + [q_pm_item_loop]
+
+
+# ------------------------------------------------------------------------------------------------
+# C13: AuthorHeads::encode keeps every author (no limit) / the newest that fit (limit)
+# ------------------------------------------------------------------------------------------------
+
+def _weak_orders(k):
+    """all weak orderings of k items as rank tuples (ranks 0..m-1, every rank used)"""
+    out = set()
+
+    def rec(i, cur):
+        if i == k:
+            used = sorted(set(cur))
+            if used == list(range(len(used))):
+                out.add(tuple(cur))
+            return
+        for r in range(k):
+            rec(i + 1, cur + [r])
+    rec(0, [])
+    return sorted(out)
+
+
+def q_c13_heads_encode(bodies):
+    """C13: the REAL `AuthorHeads::encode` (both loops unrolled).  The head set is K authors (iterated in
+    author order, as the BTreeMap does) whose timestamps follow a given weak order — every weak order
+    of K <= 3 timestamps is one instance, ties included; the temporary map is a model of
+    `BTreeMap<u64, AuthorId>` (insert replaces on an equal key, iteration in key order).
+    * no size limit: every (timestamp, author) pair is handed to the serializer;
+    * with a limit L (symbolic; `serialized_size` of the first n items = SZ_n, symbolic, increasing):
+      the pairs handed over are the newest ones, as many as fit, and their size is <= L."""
+    from mirsmt import split_sexpr_args
+    name = "c13_heads_encode"
+    hits = find_body(bodies, r"^heads::<impl at src/heads.rs:\d+:\d+: \d+:\d+>::encode$")
+    if len(hits) != 1:
+        return dict(name=name, property="C13", verdict="inconclusive", detail="AuthorHeads::encode not found uniquely (%d)" % len(hits), functions=[])
+    body = hits[0]
+    problems, nq, ncases = [], 0, 0
+    KMAX = 4 if THOROUGH else 3
+    for K in range(0, KMAX + 1):
+        for ranks in _weak_orders(K):
+            for limited in (False, True):
+                smt = Smt()
+                for f, n in (("C_Ok", 1), ("C_Some", 1), ("C_None", 0), ("C_Continue", 1), ("C_tuple2", 2), ("discr", 1), ("encoded", 1)):
+                    smt.fun(f, n)
+                for i in range(K):
+                    smt.decls.append("(declare-const au_%d V)" % i)
+                for r in sorted(set(ranks)):
+                    smt.decls.append("(declare-const TS_%d V)" % r)
+                for c in ["SELF", "LIMIT", "ITEMS"] + ["SZ_%d" % n for n in range(K + 1)]:
+                    smt.decls.append("(declare-const %s V)" % c)
+                smt.decls.append("(declare-fun gt (V V) Bool)")
+
+                def m_iter(ex, v, env):
+                    env["__it"] = (0, K)
+                    return "HEADSITER"
+                m_iter.wants_env = True
+                smt.decls.append("(declare-const HEADSITER V)")
+
+                def m_next(ex, v, env):
+                    lo, hi = env["__it"]
+                    if lo >= hi:
+                        return "C_None"
+                    env["__it"] = (lo + 1, hi)
+                    return "(C_Some (C_tuple2 (ref au_%d) (ref TS_%d)))" % (lo, ranks[lo])
+                m_next.wants_env = True
+
+                def m_bt_new(ex, v, env):
+                    env["__bt"] = ()
+                    return "BTMAP"
+                m_bt_new.wants_env = True
+                smt.decls.append("(declare-const BTMAP V)")
+
+                def m_bt_insert(ex, v, env):
+                    bt = dict(env.get("__bt", ()))
+                    bt[v[1]] = v[2]
+                    env["__bt"] = tuple(bt.items())
+                    return smt.const("bt_insert_res")
+                m_bt_insert.wants_env = True
+
+                def m_bt_into_iter(ex, v, env):
+                    # iteration in key order = rank order of the timestamps
+                    items = sorted(env.get("__bt", ()), key=lambda kv: int(re.match(r"^TS_(\d+)$", kv[0]).group(1)))
+                    env["__btit"] = tuple(items)
+                    return "BTITER"
+                m_bt_into_iter.wants_env = True
+                smt.decls.append("(declare-const BTITER V)")
+
+                def m_bt_next_back(ex, v, env):
+                    items = env.get("__btit", ())
+                    if not items:
+                        return "C_None"
+                    env["__btit"] = items[:-1]
+                    return "(C_Some (C_tuple2 %s %s))" % items[-1]
+                m_bt_next_back.wants_env = True
+
+                def m_bt_next(ex, v, env):
+                    items = env.get("__btit", ())
+                    if not items:
+                        return "C_None"
+                    env["__btit"] = items[1:]
+                    return "(C_Some (C_tuple2 %s %s))" % items[0]
+                m_bt_next.wants_env = True
+
+                def au_index(t):
+                    m = re.search(r"au_(\d+)", t)
+                    return int(m.group(1)) if m else -1
+
+                def m_bs_insert(ex, v, env):
+                    st = set(env.get("__bt", ()))
+                    parts = split_sexpr_args(v[1])
+                    st.add((parts[0], parts[1]))
+                    env["__bt"] = tuple(st)
+                    return "(b2v true)"
+                m_bs_insert.wants_env = True
+
+                def m_bs_into_iter(ex, v, env):
+                    items = sorted(env.get("__bt", ()), key=lambda kv: (int(re.match(r"^TS_(\d+)$", kv[0]).group(1)), au_index(kv[1])))
+                    env["__btit"] = tuple(items)
+                    return "BTITER"
+                m_bs_into_iter.wants_env = True
+
+                def m_len_u8(ex, v, env):
+                    return "SZ_%d" % len(env.get("__final", env.get("__pushed", ())))
+                m_len_u8.wants_env = True
+
+                def m_opt_map_closure(ex, v, env):
+                    if v[0] == "C_None":
+                        return "C_None"
+                    cb = find_body(ex.bodies, r"^heads::<impl at src/heads.rs:\d+:\d+: \d+:\d+>::encode::\{closure#0\}$")
+                    if len(cb) != 1:
+                        raise ValueError("closure of encode not found")
+                    sub = Exec(ex.bodies, smt, models=ex.models, max_paths=16, ctor=True)
+                    sub_env_paths = sub.run(cb[0], [v[1], split_sexpr_args(v[0])[0]], heap0=env.get("__heap"))
+                    if len(sub_env_paths) != 1:
+                        raise ValueError("closure of encode: unexpected shape")
+                    # the closure reads `encoded.len()`: Vec::<u8>::len is modelled with the size of the final items
+                    return "(C_Some %s)" % sub_env_paths[0][1]
+                m_opt_map_closure.wants_env = True
+
+                def m_unwrap_or(ex, v):
+                    if v[0] == "C_None":
+                        return v[1]
+                    if v[0].startswith("(C_Some "):
+                        return split_sexpr_args(v[0])[0]
+                    raise ValueError("unwrap_or on a non-constructor value")
+
+                def m_push(ex, v, env):
+                    env["__pushed"] = env.get("__pushed", ()) + (v[1],)
+                    return ex._konst("unit")
+                m_push.wants_env = True
+
+                def m_pop(ex, v, env):
+                    env["__pushed"] = env.get("__pushed", ())[:-1]
+                    return smt.const("popped")
+                m_pop.wants_env = True
+
+                def m_size(ex, v, env):
+                    return "(C_Ok SZ_%d)" % len(env.get("__pushed", ()))
+                m_size.wants_env = True
+
+                def m_to_vec(ex, v, env):
+                    env["__final"] = env.get("__pushed", ())
+                    return "(C_Ok (encoded ITEMS))"
+                m_to_vec.wants_env = True
+
+                def m_branch(ex, v):
+                    if v[0].startswith("(C_Ok "):
+                        return "(C_Continue %s)" % split_sexpr_args(v[0])[0]
+                    return "(%s %s)" % (smt.fun("call_branch", 1), v[0])
+                models = {
+                    r"^heads::AuthorHeads::iter$": m_iter,
+                    r"^<std::collections::btree_map::Iter<'_, keys::AuthorId, u64> as Iterator>::next$": m_next,
+                    r"^BTreeMap::<u64, keys::AuthorId>::new$": m_bt_new,
+                    r"^BTreeMap::<u64, keys::AuthorId>::insert$": m_bt_insert,
+                    r"^<BTreeMap<u64, keys::AuthorId> as IntoIterator>::into_iter$": m_bt_into_iter,
+                    r"^<std::collections::btree_map::IntoIter<u64, keys::AuthorId> as Iterator>::rev$": lambda ex, v: "BTITER_REV",
+                    r"^<Rev<std::collections::btree_map::IntoIter<u64, keys::AuthorId>> as Iterator>::next$": m_bt_next_back,
+                    r"^<std::collections::btree_map::IntoIter<u64, keys::AuthorId> as Iterator>::next$": m_bt_next,
+                    r"^BTreeSet::<\(u64, keys::AuthorId\)>::new$": m_bt_new,
+                    r"^BTreeSet::<\(u64, keys::AuthorId\)>::insert$": m_bs_insert,
+                    r"^<BTreeSet<\(u64, keys::AuthorId\)> as IntoIterator>::into_iter$": m_bs_into_iter,
+                    r"^<std::collections::btree_set::IntoIter<\(u64, keys::AuthorId\)> as Iterator>::rev$": lambda ex, v: "BTITER_REV",
+                    r"^<Rev<std::collections::btree_set::IntoIter<\(u64, keys::AuthorId\)>> as Iterator>::next$": m_bt_next_back,
+                    r"^<std::collections::btree_set::IntoIter<\(u64, keys::AuthorId\)> as Iterator>::next$": m_bt_next,
+                    r"^Vec::<u8>::len$": m_len_u8,
+                    r"^std::option::Option::<usize>::map::<bool, \{closure": m_opt_map_closure,
+                    r"^std::option::Option::<bool>::unwrap_or$": m_unwrap_or,
+                    r"anyhow::__private::not": lambda ex, v: "(b2v (not %s))" % mk_v2b(v[0]),
+                    r" as IntoIterator>::into_iter$": lambda ex, v: v[0],
+                    r"^Vec::<\(u64, keys::AuthorId\)>::push$": m_push,
+                    r"^Vec::<\(u64, keys::AuthorId\)>::pop$": m_pop,
+                    r"serialized_size::<Vec<\(u64, keys::AuthorId\)>>$": m_size,
+                    r"to_stdvec::<Vec<\(u64, keys::AuthorId\)>>$": m_to_vec,
+                    r" as Try>::branch$": m_branch,
+                }
+                smt.decls.append("(declare-const BTITER_REV V)")
+                ex = Exec(bodies, smt, models=models, max_paths=2000, ctor=True, unroll=True)
+                try:
+                    paths = ex.run(body, ["SELF", "(C_Some LIMIT)" if limited else "C_None"])
+                except (ValueError, AssertionError, KeyError, IndexError, AttributeError) as e:
+                    return dict(name=name, property="C13", verdict="inconclusive", detail="K=%d ranks=%s: %r" % (K, ranks, e), functions=[body.name])
+                tag = "K=%d timestamp ranks=%s %s" % (K, list(ranks), "limit" if limited else "no limit")
+                # every head, newest first (ties in either order)
+                allpairs = ["(C_tuple2 TS_%d au_%d)" % (ranks[i], i) for i in range(K)]
+                for pc, ret, calls, env in paths:
+                    ncases += 1
+                    if not ret.startswith("(C_Ok "):
+                        continue
+                    final = list(env.get("__final", ()))
+                    # Gt(size, limit) comparisons: one strict order `gt`, sizes increasing
+                    extra = []
+                    pcs = " ".join(pc)
+                    for op, a, b2 in _find_ops(pcs):
+                        t = "(op_%s %s %s)" % (op, a, b2)
+                        d = {"Gt": "(gt %s %s)" % (a, b2), "Ge": "(not (gt %s %s))" % (b2, a), "Lt": "(gt %s %s)" % (b2, a), "Le": "(not (gt %s %s))" % (a, b2)}[op]
+                        extra.append("(= (v2b %s) %s)" % (t, d))
+                    for n in range(K):
+                        extra.append("(=> (gt SZ_%d LIMIT) (gt SZ_%d LIMIT))" % (n, n + 1))
+                    ctx = "(and true %s %s)" % (pcs, " ".join(extra))
+                    if len(set(final)) != len(final) or any(x not in allpairs for x in final):
+                        problems.append(("only the set's own (timestamp, author) pairs are encoded, each once", "sat", tag))
+                        continue
+                    # newest first: the ranks of the encoded pairs never increase, and no skipped pair is newer than an encoded one
+                    rk = [ranks[allpairs.index(x)] for x in final]
+                    skipped = [ranks[i] for i in range(K) if allpairs[i] not in final]
+                    if any(rk[i] < rk[i + 1] for i in range(len(rk) - 1)) or (rk and skipped and max(skipped) > min(rk)):
+                        problems.append(("the encoded heads are the newest ones, newest first", "sat", tag))
+                        continue
+                    if not limited:
+                        if len(final) != K:
+                            problems.append(("without a size limit every author's head is encoded", "sat", tag + " encoded %d of %d" % (len(final), K)))
+                        continue
+                    nq += 2
+                    v, _ = solve(smt.script("(and %s (gt SZ_%d LIMIT))" % (ctx, len(final))))
+                    if v != "unsat":
+                        problems.append(("the encoding never exceeds the size limit", v, tag + " encoded %d" % len(final)))
+                    if len(final) < K:
+                        v, _ = solve(smt.script("(and %s (not (gt SZ_%d LIMIT)))" % (ctx, len(final) + 1)))
+                        if v != "unsat":
+                            problems.append(("under a limit as many of the newest heads as fit are kept", v, tag + " encoded %d of %d" % (len(final), K)))
+    verdict = "holds"
+    if any(p[1] == "inconclusive" for p in problems):
+        verdict = "inconclusive"
+    if any(p[1] != "inconclusive" for p in problems):
+        verdict = "violated"
+    return dict(name=name, property="C13", verdict=verdict, detail="K=0..%d, all weak orders of the timestamps; cases=%d; problems: %s" % (KMAX, ncases, problems[:6] or "none"),
+                functions=[body.name, "std BTreeMap<u64, AuthorId> (modelled), postcard serialized_size / to_stdvec (symbolic sizes)"], queries=nq, cases=ncases, witness="c13enc",
+                check_message=(problems[0][0] if problems else "encode keeps every author / the newest that fit"))
+
+
+def q_c13_heads_news(bodies):
+    """C13: the REAL `AuthorHeads::has_news_for` and its closure (loop unrolled over K = 0..3 of our heads;
+    for each author the peer's set either lacks the author or holds some timestamp — every
+    present/absent pattern is one instance, the timestamp comparison is symbolic).  Decided per path:
+    the reported number of updates equals the number of our authors that the peer lacks or for which
+    our timestamp is strictly greater (`ours > theirs`, as the closure's MIR computes it), and the
+    answer is `None` exactly when that number is zero."""
+    from mirsmt import split_sexpr_args
+    name = "c13_heads_news"
+    hits = find_body(bodies, r"^heads::<impl at src/heads.rs:\d+:\d+: \d+:\d+>::has_news_for$")
+    if len(hits) != 1:
+        return dict(name=name, property="C13", verdict="inconclusive", detail="has_news_for not found uniquely (%d)" % len(hits), functions=[])
+    body = hits[0]
+    problems, nq, ncases = [], 0, 0
+    KMAX = 4 if THOROUGH else 3
+    for K in range(0, KMAX + 1):
+        for mask in range(1 << K):
+            present = [(mask >> i) & 1 == 1 for i in range(K)]
+            smt = Smt()
+            for f, n in (("C_Some", 1), ("C_None", 0), ("C_tuple2", 2), ("discr", 1), ("C_closure1", 1)):
+                smt.fun(f, n)
+            for i in range(K):
+                for c in ("au_%d", "ours_%d", "theirs_%d"):
+                    smt.decls.append("(declare-const %s V)" % (c % i))
+            for c in ("SELF", "OTHER", "HEADSITER"):
+                smt.decls.append("(declare-const %s V)" % c)
+
+            def m_iter(ex, v, env):
+                if v[0] != "SELF":
+                    raise ValueError("iterates over the wrong set")
+                env["__it"] = (0, K)
+                return "HEADSITER"
+            m_iter.wants_env = True
+
+            def m_next(ex, v, env):
+                lo, hi = env["__it"]
+                if lo >= hi:
+                    return "C_None"
+                env["__it"] = (lo + 1, hi)
+                return "(C_Some (C_tuple2 (ref au_%d) (ref ours_%d)))" % (lo, lo)
+            m_next.wants_env = True
+
+            def m_get(ex, v):
+                if v[0] != "OTHER":
+                    raise ValueError("looks the author up in the wrong set")
+                mi = re.match(r"^\(ref au_(\d+)\)$", v[1])
+                if not mi:
+                    raise ValueError("lookup key is not one of our authors")
+                i = int(mi.group(1))
+                return "(C_Some theirs_%d)" % i if present[i] else "C_None"
+
+            def m_opt_map(ex, v):
+                if v[0] == "C_None":
+                    return "C_None"
+                cb = find_body(ex.bodies, r"^heads::<impl at src/heads.rs:\d+:\d+: \d+:\d+>::has_news_for::\{closure#0\}$")
+                if len(cb) != 1:
+                    raise ValueError("closure of has_news_for not found")
+                sub = Exec(ex.bodies, smt, models=ex.models, max_paths=16, ctor=True)
+                pp = sub.run(cb[0], [v[1], split_sexpr_args(v[0])[0]])
+                if len(pp) != 1:
+                    raise ValueError("closure of has_news_for: unexpected shape")
+                return "(C_Some %s)" % pp[0][1]
+
+            def m_unwrap_or(ex, v):
+                if v[0] == "C_None":
+                    return v[1]
+                return split_sexpr_args(v[0])[0]
+            models = {
+                r"^heads::AuthorHeads::iter$": m_iter,
+                r"^<std::collections::btree_map::Iter<'_, keys::AuthorId, u64> as Iterator>::next$": m_next,
+                r" as IntoIterator>::into_iter$": lambda ex, v: v[0],
+                r"^heads::AuthorHeads::get$": m_get,
+                r"^std::option::Option::<u64>::map::<bool, \{closure": m_opt_map,
+                r"^std::option::Option::<bool>::unwrap_or$": m_unwrap_or,
+                r"^NonZero::<u64>::new$": lambda ex, v: "(nonzero_new %s)" % v[0],
+            }
+            smt.fun("nonzero_new", 1)
+            ex = Exec(bodies, smt, models=models, max_paths=4000, ctor=True, unroll=True)
+            try:
+                paths = ex.run(body, ["SELF", "OTHER"])
+            except (ValueError, AssertionError, KeyError, IndexError, AttributeError) as e:
+                return dict(name=name, property="C13", verdict="inconclusive", detail="K=%d present=%s: %r" % (K, present, e), functions=[body.name])
+            tag = "K=%d peer knows %s" % (K, present)
+            for pc, ret, calls, env in paths:
+                ncases += 1
+                mret = re.match(r"^\(nonzero_new k_(\d+)_u64\)$", ret)
+                if not mret:
+                    problems.append(("the answer is NonZeroU64::new(number of updates)", "sat", tag + " ret=" + ret[:60]))
+                    continue
+                count = int(mret.group(1))
+                # which authors does this path count?  the strict comparison `ours > theirs` per present author
+                ctx = " ".join(pc) if pc else "true"
+                want_terms = []
+                for i in range(K):
+                    if not present[i]:
+                        want_terms.append("1")
+                    else:
+                        want_terms.append("(ite (v2b (op_Gt ours_%d theirs_%d)) 1 0)" % (i, i))
+                smt.fun("op_Gt", 2)
+                nq += 1
+                v, _ = solve(smt.script("(and %s (not (= %d (+ 0 0 %s))))" % (ctx, count, " ".join(want_terms))))
+                if v != "unsat":
+                    problems.append(("an author counts as news exactly if the peer lacks it or our timestamp is strictly newer", v, tag + " counted %d" % count))
+    verdict = "holds"
+    if any(p[1] == "inconclusive" for p in problems):
+        verdict = "inconclusive"
+    if any(p[1] != "inconclusive" for p in problems):
+        verdict = "violated"
+    return dict(name=name, property="C13", verdict=verdict, detail="K=0..%d, every present/absent pattern; paths=%d; problems: %s" % (KMAX, ncases, problems[:4] or "none"),
+                functions=[body.name, body.name + "::{closure#0}", "AuthorHeads::{iter,get} (modelled), NonZeroU64::new (None iff 0: std)"], queries=nq, cases=ncases, witness="c13news",
+                check_message=(problems[0][0] if problems else "news detection counts exactly the strictly newer or unknown authors"))
+
+
+QUERIES["C13"] = QUERIES["C13"] + [q_c13_heads_encode, q_c13_heads_news]
